@@ -387,8 +387,13 @@ def lik_constant(x):
     return 0.0
 
 
+def lik_gaussflat(x):
+    # tightly constrained in the first coordinate, flat in all others (a nuisance parameter: the bound keeps a unit-cube dimension)
+    return -0.5 * ((float(x[0]) - 0.5) / 0.05) ** 2
+
+
 FAMILIES = dict(gauss=lik_gauss, twomode=lik_twomode, funnel=lik_funnel, halfspace=lik_halfspace, plateau=lik_plateau,
-                periodic=lik_periodic, constant=lik_constant)
+                periodic=lik_periodic, constant=lik_constant, gaussflat=lik_gaussflat)
 
 
 def blob_of(kind, x, ll):
